@@ -171,7 +171,13 @@ func keyID(v starlark.Value) int32 {
 // iterIDs walks the collection with Iterate/Next, giving up after limit elements
 // (a corrupted order list may be cyclic).
 func iterIDs(it starlark.Iterator, limit int) (ids []int32, overrun bool) {
+	return iterIDsBuf(it, limit, nil)
+}
+
+// iterIDsBuf is iterIDs appending to buf[:0].
+func iterIDsBuf(it starlark.Iterator, limit int, buf []int32) (ids []int32, overrun bool) {
 	defer it.Done()
+	ids = buf[:0]
 	var kv starlark.Value
 	for it.Next(&kv) {
 		if len(ids) >= limit {
